@@ -7,7 +7,8 @@ SPEC = {
             "durations (1ns, 1s+-1ns, 1.5s, 4h, 24h, 30d, 2^32-2 s, infinity for non-deprecated); each plugin value is "
             "evaluated along a sequence of clock readings containing deadline-1s/-1ns/0/+1ns/+1s for both deadlines, "
             "epoch, epoch-1ns, before the epoch, far future, random instants; 70% sorted (monotonicity is checked on "
-            "those), 30% shuffled. A case is non-trivial when the plugin is deprecated (the countdown is exercised); "
+            "those), 30% shuffled; 30% of the plugins use the ::/64 / ::/0 wildcard form; in 35% the injected clock advances by "
+            "1ns..7s on every reading within one Apply (all lifetimes of one RA must describe the first reading). A case is non-trivial when the plugin is deprecated (the countdown is exercised); "
             "distinct by canonical input.",
     "nontrivial": lambda c: bool(c.get("input", {}).get("deprecated")),
     "trusted": ["time.Time saturation (|now-epoch| near 2^63 ns) is outside the model; generated instants stay below 2^62 ns"],
